@@ -83,6 +83,7 @@ def eval (F : Facts) : List String → Option String
     some s!"err {if t ≤ T then "=T" else ">T"}"
   | ["lock-late", _] => some "first:err second:ok"
   | ["route-after-timeout", _] => some "first:err second:ok from-bound-port"
+  | ["discover-during-call", _] => some "call:err discovered=1 from-bound-port"
   | ["route-twice", _, _] => some "all-from-bind-address-and-port"
   | ["route-occupied", _, _] => some "occupied nothing-from-another-address-or-port"
   | ["route", _, bind, want] =>
